@@ -124,20 +124,23 @@ class _Fail(Exception):
     pass
 
 
-def shrink(case, check, key, candidates, max_evals=400):
+def shrink(case, check, key, candidates, max_evals=400, max_seconds=60):
     """Greedy bounded shrinking: adopt any smaller candidate failing with the same key."""
     evals = 0
     cur = case
     curv = None
     improved = True
-    while improved and evals < max_evals:
+    t_end = time.time() + max_seconds
+    if key.startswith('hang:') or key.startswith('memory:'):
+        return cur, curv, evals
+    while improved and evals < max_evals and time.time() < t_end:
         improved = False
         try:
             cands = list(candidates(cur))
         except Exception:
             break
         for c in cands:
-            if evals >= max_evals:
+            if evals >= max_evals or time.time() >= t_end:
                 break
             evals += 1
             try:
@@ -163,11 +166,51 @@ def run_shard(args):
         return {'lane': lane_name, 'shard': shard, 'error': ''.join(traceback.format_exception(type(e), e, e.__traceback__))}
 
 
+CASE_TIME_LIMIT = 60          # seconds; normal cases take milliseconds
+WORKER_MEMORY_LIMIT = 4 << 30  # bytes of address space per worker process
+
+
+class CaseTimeout(BaseException):
+    pass
+
+
+def _on_alarm(signum, frame):
+    raise CaseTimeout()
+
+
+def guarded(check):
+    """Wrap a lane check: a case that runs longer than CASE_TIME_LIMIT or exhausts the memory limit is a failure
+    of the code under test (reported with its own bucket), not a reason for the harness to hang."""
+    import signal
+
+    def run(case):
+        old = signal.signal(signal.SIGALRM, _on_alarm)
+        signal.alarm(CASE_TIME_LIMIT)
+        try:
+            return check(case)
+        except CaseTimeout:
+            return FAIL('hang:>%ds' % CASE_TIME_LIMIT, 'the case did not finish within %d s:\n%r' % (CASE_TIME_LIMIT, jsonable(case)))
+        except MemoryError:
+            return FAIL('memory:>%dGB' % (WORKER_MEMORY_LIMIT >> 30), 'the case exhausted the memory limit:\n%r' % (jsonable(case),))
+        finally:
+            signal.alarm(0)
+            signal.signal(signal.SIGALRM, old)
+    return run
+
+
 def _run_shard(modname, lane_name, tier, seed, shard, n_examples, known_keys):
     from hypothesis import given, settings, HealthCheck, Phase
     from hypothesis import seed as hseed
     mod = importlib.import_module(modname)
     lane = [l for l in mod.LANES if l.name == lane_name][0]
+    if multiprocessing.current_process().name != 'MainProcess':
+        try:
+            import resource
+            resource.setrlimit(resource.RLIMIT_AS, (WORKER_MEMORY_LIMIT, WORKER_MEMORY_LIMIT))
+        except Exception:
+            pass
+    if lane.check is not None:
+        lane.check = guarded(lane.check)
     t0 = time.time()
     if lane.custom is not None:
         st_, fails = lane.custom(tier, seed, shard, n_examples)
@@ -211,12 +254,15 @@ def _run_shard(modname, lane_name, tier, seed, shard, n_examples, known_keys):
         evals = 0
         if lane.candidates is not None:
             c2, v2, evals = shrink(case, lane.check, v.key, lane.candidates,
-                                   max_evals=300 if tier == 'quick' else 2000)
+                                   max_evals=300 if tier == 'quick' else 2000,
+                                   max_seconds=45 if tier == 'quick' else 300)
             if v2 is not None:
                 case, v = c2, v2
         failures.append({'lane': lane_name, 'key': v.key, 'detail': v.detail, 'case': jsonable(case),
                          'shrink_evals': evals})
         seen.add(v.key)
+        if v.key.startswith('hang:') or v.key.startswith('memory:'):
+            break     # every further such case would cost the full time limit: stop this shard
     return {'lane': lane_name, 'shard': shard, 'stats': stats.export(), 'failures': failures,
             'wall': time.time() - t0}
 
@@ -269,7 +315,10 @@ def replay_file(mod, path):
         rec = json.load(fh)
     lane = lane_by_name(mod, rec['lane'])
     from .formula import from_json  # noqa
-    v = lane.check(rec['case'])
+    import contextlib
+    import io
+    with contextlib.redirect_stdout(io.StringIO()):      # the code under test may print
+        v = lane.check(rec['case'])
     return rec, v
 
 
